@@ -22,7 +22,7 @@ RULE = (
 )
 MIN_NONTRIVIAL = {"quick": 30, "thorough": 400}
 SHARDS = {"quick": 4, "thorough": 16}
-GENERATOR = {"max_pressure": "quick 1500..3000, thorough 1500..14000", "synthetic": "2..400 rows, p steps 0.1..500 psi, mu 0.005..0.1, Z 0.3..2"}
+GENERATOR = {"max_pressure": "quick 1500..3000, thorough 1500..14000", "synthetic": "2..400 rows listed in ascending or descending pressure, p steps 0.1..500 psi, mu 0.005..0.1, Z 0.3..2"}
 ASSUMPTIONS = [
     "'quadrature accuracy' = 1e-4 relative on differences between table nodes >= 50 psi apart "
     "(trapezoid rule on the builder's 10-psi grid; measured 4e-5 at 100 psi)",
@@ -60,9 +60,13 @@ def generate(ck):
             p = np.cumsum(10.0 ** rng.uniform(-1, 2.7, m))
         else:
             p = np.linspace(wl.f(rng.uniform(1, 100)), wl.f(rng.uniform(500, 14000)), m)
+        order = ["ascending", "ascending", "descending"][i % 3]
+        if order == "descending":
+            p = p[::-1]  # a lab table listed from high to low pressure
         descs.append(
             {
                 "kind": "synthetic",
+                "order": order,
                 "p": [wl.f(v) for v in p],
                 "mu": [wl.f(v) for v in rng.uniform(0.005, 0.1, m)],
                 "z": [wl.f(v) for v in rng.uniform(0.3, 2.0, m)],
@@ -86,8 +90,10 @@ def run_case(ck, desc):
             ck.violation("standalone=harness-trapezoid", {"rel": e}, desc)
         if out[0] != 0:
             ck.violation("zero-at-reference", {"first": out[0]}, desc)
-        if np.any(np.diff(out) <= 0):
-            ck.violation("strictly-increasing", {"min_step": float(np.min(np.diff(out)))}, desc)
+        # strictly increasing IN PRESSURE, whatever the order of the rows
+        if np.any(np.diff(out) * np.sign(np.diff(p)) <= 0):
+            ck.violation("strictly-increasing", {"order": desc.get("order"), "min_step": float(np.min(np.diff(out) * np.sign(np.diff(p))))}, desc)
+        ck.count(f"synthetic_tables.{desc.get('order', 'ascending')}")
         if not all(np.array_equal(a, b) for a, b in zip(snap, (p, mu, z))):
             ck.violation("inputs-unmodified", {}, desc)
         ck.count("synthetic_tables")
